@@ -4,6 +4,7 @@ use crate::util::Ctx;
 pub mod real;
 pub mod c01;
 pub mod c02;
+pub mod c02r;
 pub mod ctlrun;
 pub mod c03;
 pub mod c04;
